@@ -123,3 +123,46 @@ def _cf2d_cases():
 
 
 contract('bycycle.group.features.compute_features_2d', cases=_cf2d_cases(), modifies=[], result=_res_list)
+
+
+# ------------------------------------------------------------------------------------------------ compute_features_3d
+def _res_grid2(E, env):
+    n0 = z3.Int(fresh_name('dfs.n0'))
+    n1 = z3.Int(fresh_name('dfs.n1'))
+    E.assume(z3.And(n0 >= 0, n1 >= 0))
+    fn = z3.Function(fresh_name('dfs.at'), z3.IntSort(), z3.IntSort(), ValSort)
+    return G.grid(E, (n0, n1), 2, (lambda i, j: _opq(fn(i, j))), 'list')
+
+
+def _cf3d_cases():
+    out = []
+    common = {'sigs': ('grid', 2, True), 'fs': REAL, 'f_range': ('tuple', [REAL, REAL]), 'return_samples': BOOL,
+              'n_jobs': INT, 'progress': ('const', None)}
+    N0, N1 = "sigs.shape[0]", "sigs.shape[1]"
+    for kl, kt, opts, valid in (
+            ('None', 'none', 'no_opts()', 'True'),
+            ('dict', 'optdict', 'drop_rs(%s)' % KW, 'True'),
+            ('2d-list', ('grid', 2, False, 'list'), 'drop_rs(%s[i][j])' % KW,
+             "%s.shape[0] == %s and %s.shape[1] == %s" % (KW, N0, KW, N1))):
+        inner_inv = ["len(dfs_features) == %s" % N0,
+                     "forall((i, j), 0 <= i < dim0_idx and 0 <= j < %s, dfs_features[i][j] == df_2d[i * %s + j])" % (N1, N1),
+                     "forall(j, 0 <= j < q, dfs_features[dim0_idx][j] == df_2d[dim0_idx * %s + j])" % N1]
+        out.append(dict(
+            label='axis=(0,1),kw=%s' % kl,
+            params=dict(common, **{KW: kt, 'axis': ('const', (0, 1))}),
+            requires=["n_jobs >= 1 or n_jobs == -1"],
+            raises={'ValueError': "not (%s)" % valid},
+            ensures=[
+                # C12: entry [i][j] is the analysis of signal [i, j] alone, with the options given for position [i][j]
+                "len(result) == %s" % N0,
+                "forall((i, j), 0 <= i < %s and 0 <= j < %s, result[i][j] == CF(sigs[i][j], fs, f_range, return_samples, %s))"
+                % (N0, N1, opts),
+            ],
+            loops={1: dict(index='p', mutates=['dfs_features'], invariant=[
+                       "len(dfs_features) == %s" % N0,
+                       "forall((i, j), 0 <= i < p and 0 <= j < %s, dfs_features[i][j] == df_2d[i * %s + j])" % (N1, N1)]),
+                   2: dict(index='q', mutates=['dfs_features'], invariant=inner_inv)}))
+    return out
+
+
+contract('bycycle.group.features.compute_features_3d', cases=_cf3d_cases(), modifies=[], result=_res_grid2)
